@@ -321,7 +321,14 @@ def c02_10(ctx, r):
     mdl = ctx.cls("GenericCommandParametersModel")
     r.check("blocked_by" in mdl.ann_fields and "blocked_by" not in ctx.src(mdl.methods["dict"].node), "blocked_by is a model field and is never dropped on output", key_of(mdl.methods["dict"], "blocked_by kept"), mdl.methods["dict"].loc(), "blocked_by can be dropped from the serialised job")
     hv = mdl.methods.get("handle_blocked_by")
-    r.check(hv is not None and comp_norm([n for n in iter_own(hv.node) if isinstance(n, ast.Return)][0].value) == "{str(_)for_invalue}", "integer blockers are normalised to the job-name strings", key_of(hv, "normalise") if hv else "handle_blocked_by", hv.loc() if hv else mdl.module.relpath + ":1", "blocked_by normalisation changed")
+    from ..lib import collections_from as _cf
+
+    hcols = _cf(ctx, hv, lambda e: isinstance(e, ast.Name) and e.id in hv.params) if hv is not None else []
+    okn = len(hcols) == 1 and hcols[0]["elt"] == "str(_)" and not hcols[0]["conds"]
+    if okn:
+        rets = [n for n in iter_own(hv.node) if isinstance(n, ast.Return)]
+        okn = len(rets) == 1 and ((hcols[0]["form"] == "comprehension" and hcols[0]["at"] is rets[0].value and isinstance(rets[0].value, ast.SetComp)) or (isinstance(rets[0].value, ast.Name) and rets[0].value.id == hcols[0]["into"]))
+    r.check(okn, "integer blockers are normalised to the job-name strings", key_of(hv, "normalise") if hv is not None else "GenericCommandParametersModel::normalise", hv.loc() if hv is not None else "?", "blocked_by normalisation changed")
 
 
 @rule(P, "C02.11", "T14", "resubmission: a rerun dependent's remaining blockers are recomputed on every closure pass, from the closed rerun set", min_obligations=6)
@@ -329,3 +336,13 @@ def c02_11(ctx, r):
     from .c13 import c13_5
 
     c13_5(ctx, r)
+
+
+@rule(P, "C02.12", "T3+T6", "a job canceled by JADE has its 'canceled' row on disk at the moment it is marked done / its dependents can be released", min_obligations=5)
+def c02_12(ctx, r):
+    from .c09 import c09_5
+
+    c09_5(ctx, r)
+    from .c12 import c12_4
+
+    c12_4(ctx, r)
